@@ -546,7 +546,7 @@ func runC16(t *testing.T, seed uint64, planJSON []byte, tier string) (res *Resul
 		plan = genC16Plan(seed, tier)
 		tape = simkit.NewTape(seed)
 	}
-	res.Harness = runBubble(t, func(t *testing.T) {
+	res.Harness = runBubbleP(t, plan, func(t *testing.T) {
 		w := bootAT(seed, tape, plan.Cfg, simnet.Config{FragmentPct: 5})
 		sim := w.Sim
 		sim.Known = loadKnown("C16")
